@@ -16,6 +16,7 @@ import elin
 import evlm
 import edef
 import eptr
+import eidx
 import ereduce
 import ecanon
 import ecount
@@ -54,6 +55,8 @@ def run(ctx, F, dm=True):
     ecanon.check_id_split(ctx, F)
     n = eptr.run(ctx, F)
     ctx.floor("E-PTR.tagbits", "interpreted mask / accessor situations", n, 11)
+    n = eidx.run(ctx, F)
+    ctx.floor("E-IDX.tagbits", "interpreted constant / accessor situations", n, 18)
     ecount.run(ctx, F, ("oxidd_rules_bdd", "oxidd_rules_zbdd", "oxidd_rules_mtbdd", "oxidd_rules_tdd", "oxidd_core", "oxidd_cache"))
     n = ecanon.check_ptr_split(ctx, F)
     ctx.floor("E-CANON.ptrsplit", "is_inner() branches of the pointer-based manager", n, 6)
